@@ -190,6 +190,11 @@ func TestC14(t *testing.T) {
 							if fwd {
 								rl.Backend = &rconfig.Backend{Host: "127.0.0.1:1"}
 							}
+							if mask&stE == 0 && n%2 == 0 {
+								// `on_error: []` written out: a list without steps defines no error handling stage either
+								rl.ErrorHandler = []config.MechanismConfig{}
+								r.Count("rules_with_an_explicitly_empty_on_error", 1)
+							}
 							expectReject, why := false, ""
 							if mask&stA == 0 && !dv.present {
 								expectReject, why = true, "ends up without an authenticator"
@@ -366,6 +371,10 @@ func TestC14(t *testing.T) {
 				{"unsupported on_error key", []config.MechanismConfig{{"authenticator": "anon"}}, []config.MechanismConfig{{"authorizer": "realallow"}}},
 				{"condition that does not compile", []config.MechanismConfig{{"authenticator": "anon"}, {"authorizer": "realallow", "if": "this is not cel ("}}, nil},
 				{"condition that is not boolean", []config.MechanismConfig{{"authenticator": "anon"}, {"authorizer": "realallow", "if": "1 + 1"}}, nil},
+				{"condition of dynamic type", []config.MechanismConfig{{"authenticator": "anon"}, {"authorizer": "realallow", "if": "Subject.Attributes.suspended"}}, nil},
+				{"condition that is a string", []config.MechanismConfig{{"authenticator": "anon"}, {"finalizer": "noop", "if": `Request.Header("X-A")`}}, nil},
+				{"condition that is a list", []config.MechanismConfig{{"authenticator": "anon"}, {"contextualizer": "probe:ctxbad", "if": "[true]"}}, nil},
+				{"error handler condition of dynamic type", []config.MechanismConfig{{"authenticator": "anon"}}, []config.MechanismConfig{{"error_handler": "realdef", "if": "Request.URL.Captures.x"}}},
 			}
 			for _, b := range bad {
 				// each malformed execute list also together with a well-formed error pipeline of the rule's own
